@@ -5,7 +5,11 @@ SPEC['C01'] = ('Top-down require returns what a from-scratch build would return'
   ('C01_reuse_needs_all_consistent_partial', 'Local', 'check_deps_inconsistent',
    'partial: a recorded resource dependency whose checker reports Inconsistent ends validation with "inconsistent" (no reuse)'),
 ], 'The full statement is proved for the class spelled out in the hypotheses of C01_incremental_equals_scratch (no target twice per execution, direct require of the generator before reading its product, exact write checkers, total stampers); programs outside that class (repeated targets, transitive generator requires, coarse write checkers) are decided by the correspondence run and the fresh-instance oracle.')
-SPEC['C02'] = ('Top-down build does no unnecessary work', ['Local', 'Local2', 'History', 'ExecInv', 'ExecSession', 'Justify', 'Cert', 'Stable', 'NoBug4', 'Sim', 'NoAbort', 'Final', 'Valid', 'Idem', 'C01Witness', 'SimAll'], [
+SPEC['C02'] = ('Top-down build does no unnecessary work', ['Local', 'Local2', 'History', 'ExecInv', 'ExecSession', 'Justify', 'Cert', 'Stable', 'NoBug4', 'Sim', 'NoAbort', 'Final', 'Valid', 'Idem', 'C01Witness', 'SimAll', 'BuJust', 'ExecJust'], [
+  ('C02_executions_justified_any_session', 'ExecJust', 'session_executions_justified',
+   'GLOBAL "only if it has never completed before or a recorded dependency is reported inconsistent by its own checker": for ALL programs, checkers, fuel, stores and ALL sessions (requires and bottom-up builds in any mix, completed or aborted): every execution start in the event stream comes directly after a top-down dependency check that did not say consistent, or the task was scheduled earlier in the session (and every scheduling comes directly after a check of that task that did not say consistent), or the task had no output when the session began, or an execution of it started earlier in the session (excluded by C07)'),
+  ('C02_consistent_checks_never_execute', 'ExecJust', 'consistent_checks_never_execute',
+   'contrapositive: in a session in which no dependency check reports an inconsistency or fails, no task that completed before is executed'),
   ('C02_at_most_once_per_session', 'Final', 'session_at_most_once',
    'for ALL programs, checkers, fuel, stores satisfying the store invariants J (every store reachable by top-down histories does: C19_no_internal_error_all_histories) and ALL sessions of requires: the session event stream contains no task execution twice (also when the session ends in an abort)'),
   ('C02_executed_only_if_not_yet_consistent', 'ExecSession', 'session_require_execs',
@@ -72,7 +76,11 @@ SPEC['C08'] = ('Recorded dependencies are exactly those of the latest execution'
   ('C08_general_refuted', 'Findings', 'C08_general_refuted', 'recorded finding (O7): with two different checkers on one target only the last require checker is kept'),
   ('C08_require_records_checker_and_stamp', 'Local2', 'update_require_dependency_done', 'a completed require records exactly DRequire t c stamp on the edge from the executing task'),
 ], 'PARTIAL: exactness over whole executions is decided by the store-dump correspondence and the op-log oracle.')
-SPEC['C09'] = ('Consistency is decided by the dependency checker on a timely stamp', ['Local', 'Local2'], [
+SPEC['C09'] = ('Consistency is decided by the dependency checker on a timely stamp', ['Local', 'Local2', 'Justify', 'BuJust', 'TdForward', 'ExecJust'], [
+  ('C09_failed_check_then_execution_any_session', 'TdForward', 'session_failed_check_then_execution', 'GLOBAL "an inconsistent dependency always causes re-execution when its owner is validated": for ALL programs, checkers, fuel, stores and ALL sessions (any mix of requires and bottom-up builds, completed or aborted): a top-down dependency check whose checker did not say consistent (inconsistent, or failed) is never the last event and the event directly after it is the start of a task execution -- no further check, no reuse'),
+  ('C09_failed_check_executes_owner', 'TdForward', 'mc_failed_check_executes_owner', 'which task: when the validation of the recorded dependencies of t answers inconsistent, the failing check end is the last event, it belongs to one of the recorded dependencies of t, and make_task_consistent continues by executing t from that world (first event EExecStart t)'),
+  ('C09_executions_justified_any_session', 'ExecJust', 'session_executions_justified', 'GLOBAL "a dependency whose checker reports consistency never causes re-execution": every execution start in ANY session comes directly after a failing top-down check, or after an earlier scheduling of the task (itself directly after a check of that task that did not say consistent), or the task had no output when the session began (or is re-entered: excluded by C07)'),
+  ('C09_consistent_checks_never_execute', 'ExecJust', 'consistent_checks_never_execute', 'contrapositive: in a session in which no dependency check reports an inconsistency or fails, no task that completed before is executed'),
   ('C09_stamp_read', 'Local2', 'sess_read_done', 'read: the stamp is taken from the very content handed to the task, before the task continues'),
   ('C09_stamp_write', 'Local2', 'sess_write_done', 'write: the stamp is taken from the content after the write function has run'),
   ('C09_stamp_require', 'Local2', 'require_with_done', 'require: the stamp is the output checker stamp of the very output returned to the requirer'),
@@ -83,7 +91,9 @@ SPEC['C16'] = ('Build behaviour is a deterministic function of the history', ['S
   ('C16_sort_order_independent', 'Sorting', 'sort_by_order_independent',
    'the only places where the code iterates unordered containers (the two change sets of reorder_nodes, the bottom-up queue) sort by unique ranks: the result is independent of the arrival order'),
 ], 'The model is a function of the history by construction; the runtime part (hash seeds, processes) is decided by two-process replay.')
-SPEC['C18'] = ('Checker errors during validation never cause stale reuse and are reported', ['Local', 'ErrRep', 'BuJust'], [
+SPEC['C18'] = ('Checker errors during validation never cause stale reuse and are reported', ['Local', 'ErrRep', 'BuJust', 'Justify', 'TdForward'], [
+  ('C18_td_failed_check_then_execution_any_session', 'TdForward', 'session_failed_check_then_execution', 'GLOBAL top-down "treated as inconsistent, so its task is re-executed, never reuse": in ANY session a top-down dependency check that ends with a checker ERROR (or with inconsistent) is directly followed by the start of a task execution; the task is the owner (C18_td_failed_check_executes_owner)'),
+  ('C18_td_failed_check_executes_owner', 'TdForward', 'mc_failed_check_executes_owner', 'the owner of the failing dependency is the task that is executed next'),
   ('C18_errors_reported_all_sessions', 'ErrRep', 'session_errors_reported', 'GLOBAL "never swallowed": for ALL programs, checkers, fuel, stores and ALL sessions (top-down requires and bottom-up builds in any mix, any number of failures, completed or aborted), every dependency-check end event in the session that carries a checker error has that error in the session\'s dependency_check_errors'),
   ('C18_bu_failed_check_schedules', 'BuJust', 'bottom_up_executions_justified', 'bottom-up, global: the SJ clause -- a scheduling event is directly preceded by a check end of that task that is NOT "consistent", which a failed check is (try_schedule: C18_bu_error shows the failing check is followed by the scheduling)'),
   ('C18_position_independent', 'Local', 'check_deps_app', 'a consistent prefix of the dependency list is skipped: the following lemmas apply at ANY position'),
